@@ -12,7 +12,16 @@
 using namespace dnsw;
 
 namespace {
-const int MAXREQ = 8;
+#ifndef C34_MAXREQ
+#define C34_MAXREQ 20
+#endif
+#ifndef C34_BURST
+#define C34_BURST 12
+#endif
+const int MAXREQ = C34_MAXREQ;   // 20 requests = at most 40 resolver-level requests (getaddrinfo PF_UNSPEC asks twice): below the default limit of 64
+// max-inflight 1-12: 1-5 give a one-bucket in-flight table (n_req_heads = ceil(max/5)), 6-10 two buckets, 11-12 three; a burst of requests
+// overflows any of them, so that the waiting queue is populated next to a multi-bucket table
+const int NMAXINF = 12;
 enum { K_A = 0, K_AAAA = 1, K_PTR = 2, K_GAI = 3 };
 struct Ctx;
 struct R { Ctx *cx = nullptr; int idx = 0; int kind = 0; struct evdns_request *h = nullptr; struct evdns_getaddrinfo_request *g = nullptr; bool issued = false;
@@ -20,10 +29,13 @@ struct R { Ctx *cx = nullptr; int idx = 0; int kind = 0; struct evdns_request *h
   int cur_id[2] = {-1, -1};    // latest transaction ID seen for this request's A/PTR (0) and AAAA (1) question
   bool live() const { return issued && cb == 0; } };
 struct Delayed { bool tcp; int ns; struct sockaddr_in to; int conn; std::vector<uint8_t> bytes; };
+struct Item { bool tcp; int ns; int conn; struct sockaddr_in from; std::vector<uint8_t> data; int epoch; };
 struct Ctx {
   Src *s; World *w; R r[MAXREQ]; int nreq = 0; bool base_freed = false; int freed_fail = -1; bool freed_in_cb = false; bool gai_pending_at_free0 = false;
   int cb_depth = 0; std::vector<Delayed> delayed; bool k_rt_uaf = false, k_gai_leak = false, k_probe_uaf = false, k_gai_uaf = false, k_stall = false; bool ns_may_have_failed = false; bool closing = false; int maxinf = 0; bool followup_possible = false;
   int n_timeouts = 0, n_tcp = 0, n_cancel = 0, n_incb = 0, n_retrans = 0, n_late = 0, n_search = 0, n_failover = 0;
+  std::vector<Item> pending; int epoch = 0;   // queries read from the fake servers but not served yet; epoch = which collect() saw them
+  int ndom = 0, n_burst = 0, n_relimit = 0, live_at_free = -1, maxinf_at_free = 0;
 };
 Ctx *CX;
 
@@ -54,6 +66,7 @@ void free_base(Ctx &cx, int fail, bool in_cb) {
   if (probe_risk && fail) { verif_known_skipped("asan:heap-use-after-free@nameserver_probe_callback"); fail = 0; }
   else if (gai_live && !fail && cx.k_gai_leak) { verif_known_skipped("C34/leak-getaddrinfo-base-free"); fail = 1; }   // known finding: keep away from it by construction
   if (gai_live && !fail) cx.gai_pending_at_free0 = true;
+  { int live = 0; for (int i = 0; i < cx.nreq; i++) if (cx.r[i].live()) live++; cx.live_at_free = live; cx.maxinf_at_free = cx.maxinf; }
   TR("%sevdns_base_free(fail_requests=%d)", in_cb ? "    in-cb " : "", fail);
   w.close_dns(fail); cx.base_freed = true; cx.freed_fail = fail; cx.freed_in_cb = in_cb;
 }
@@ -83,10 +96,11 @@ void on_done(R *r, int result) {
 void resolve_cb(int result, char type, int count, int ttl, void *addrs, void *arg) { (void)type; (void)count; (void)ttl; (void)addrs; on_done((R *)arg, result); }
 void gai_cb(int err, struct evutil_addrinfo *res, void *arg) { if (res) evutil_freeaddrinfo(res); on_done((R *)arg, err); }
 
-void issue(Ctx &cx, bool in_cb) {
+// kind/fsel/family < 0: draw them (one request); >= 0: given by the caller (burst: many requests of one shape from three draws)
+void issue_as(Ctx &cx, bool in_cb, int kind, int fsel, int family) {
   if (cx.nreq >= MAXREQ || !cx.w->dns) return;
-  Src &s = *cx.s; World &w = *cx.w; int i = cx.nreq++; R &r = cx.r[i]; r.cx = &cx; r.idx = i; r.kind = s.below(4);
-  int fl = 0; int fsel = s.below(6);
+  Src &s = *cx.s; World &w = *cx.w; int i = cx.nreq++; R &r = cx.r[i]; r.cx = &cx; r.idx = i; r.kind = kind >= 0 ? kind : (int)s.below(4);
+  int fl = 0; if (fsel < 0) fsel = s.below(6);
   bool other_tcp = false; for (int k = 0; k < i; k++) if (cx.r[k].live() && cx.r[k].tcp) other_tcp = true;
   if (cx.k_rt_uaf && (fsel == 2 || fsel == 3) && other_tcp) { verif_known_skipped("asan:heap-use-after-free@retransmit_all_tcp_requests_for"); fsel = 0; }   // known finding: two TCP requests timing out on one nameserver
   if (fsel == 1) fl |= DNS_QUERY_NO_SEARCH; if (fsel == 2 || fsel == 3) { fl |= DNS_QUERY_USEVC; r.tcp = true; } if (fsel == 4) fl |= DNS_QUERY_IGNTC;
@@ -95,19 +109,27 @@ void issue(Ctx &cx, bool in_cb) {
   if (r.kind == K_A) r.h = evdns_base_resolve_ipv4(w.dns, name, fl, resolve_cb, &r);
   else if (r.kind == K_AAAA) r.h = evdns_base_resolve_ipv6(w.dns, name, fl, resolve_cb, &r);
   else if (r.kind == K_PTR) { struct in_addr in; in.s_addr = htonl(0x0a000000u + (unsigned)i); snprintf(name, sizeof name, "%d.0.0.10.in-addr.arpa", i); r.h = evdns_base_resolve_reverse(w.dns, &in, fl, resolve_cb, &r); }
-  else { struct evutil_addrinfo hints; memset(&hints, 0, sizeof hints); r.family = s.below(3); hints.ai_family = r.family == 0 ? PF_UNSPEC : r.family == 1 ? PF_INET : PF_INET6; hints.ai_socktype = SOCK_STREAM;
+  else { struct evutil_addrinfo hints; memset(&hints, 0, sizeof hints); r.family = family >= 0 ? family : (int)s.below(3); hints.ai_family = r.family == 0 ? PF_UNSPEC : r.family == 1 ? PF_INET : PF_INET6; hints.ai_socktype = SOCK_STREAM;
     r.g = evdns_getaddrinfo(w.dns, name, "80", &hints, gai_cb, &r); }
   bool ok = r.kind == K_GAI ? (r.g != nullptr || r.cb == 1) : r.h != nullptr;
   TR("%sissue r%d kind=%d flags=0x%x -> %s", in_cb ? "    in-cb " : "", i, r.kind, fl, ok ? "ok" : "NULL");
   if (!ok) { CHECK(r.cb == 0, "C34/callback-and-null", "resolve returned NULL for r%d but its callback ran", i); r.issued = false; }
 }
+void issue(Ctx &cx, bool in_cb) { issue_as(cx, in_cb, -1, -1, -1); }
+// 2-12 requests of one generated shape, back to back: the cheap way (4 draws) to have more requests outstanding than max-inflight allows
+void burst(Ctx &cx) {
+  Src &s = *cx.s; int kind = s.below(4), fsel = s.below(6), family = kind == K_GAI ? (int)s.below(3) : 0, n = 2 + (int)s.below(C34_BURST - 1);
+  TR("burst of %d", n); cx.n_burst++;
+  for (int k = 0; k < n && cx.w->dns && cx.nreq < MAXREQ; k++) issue_as(cx, false, kind, fsel, family);
+}
 
 // which request does a query belong to?  names are "rN.test[.domain]" / "N.0.0.10.in-addr.arpa"; probes ask for google.com
 int owner_of(const Query &q) {
   if (q.name.empty()) return -1; const std::string &l = q.name[0];
-  if (q.type == T_PTR) { if (l.size() == 1 && l[0] >= '0' && l[0] <= '7') return l[0] - '0'; return -1; }
-  if (l.size() == 2 && (l[0] == 'r' || l[0] == 'R') && l[1] >= '0' && l[1] <= '7') return l[1] - '0';
-  return -1;
+  size_t p = 0; if (q.type != T_PTR) { if (l.empty() || (l[0] != 'r' && l[0] != 'R')) return -1; p = 1; }
+  if (l.size() == p || l.size() > p + 2 || (l.size() == p + 2 && l[p] == '0')) return -1;
+  int v = 0; for (size_t k = p; k < l.size(); k++) { if (l[k] < '0' || l[k] > '9') return -1; v = v * 10 + (l[k] - '0'); }
+  return v < MAXREQ ? v : -1;
 }
 void check_ids(Ctx &cx) {
   std::map<int, int> seen;
@@ -124,14 +146,20 @@ std::vector<uint8_t> make_reply(Src &s, const std::vector<uint8_t> &query, const
   uint16_t fl = F_QR | F_RD | F_RA; if (act == 1) fl |= 3; else if (act == 3) fl |= 2; else if (act == 4) fl |= 5; else if (act == 5) fl |= 4; else if (act == 6) fl |= F_TC;
   return reply_header_echo(query, fl, 0).b;
 }
-// read everything the fake servers received and act on it
+// read what the fake servers have received so far (without acting on it yet) and start a new epoch.  Called by serve() and before every
+// step at which the resolver can be told something that ends a request (time passing, late replies): a transaction ID is free again as
+// soon as its request is done, so only queries read by the same collect() are known to have been outstanding together.
+void collect(Ctx &cx) {
+  World &w = *cx.w; std::vector<Item> &items = cx.pending;
+  for (int k = 0; k < w.nns; k++) { Datagram d; while (udp_recv(k, &d)) { Item it; it.tcp = false; it.ns = k; it.conn = -1; it.from = d.from; it.data = d.data; it.epoch = cx.epoch; items.push_back(it); } }
+  w.tcp_poll();
+  for (size_t c = 0; c < w.conns.size(); c++) { std::vector<uint8_t> m; while (w.conns[c].fd >= 0 && World::tcp_pop(w.conns[c], &m)) { Item it; it.tcp = true; it.ns = w.conns[c].ns; it.conn = (int)c; memset(&it.from, 0, sizeof it.from); it.data = m; it.epoch = cx.epoch; items.push_back(it); cx.n_tcp++; } }
+  cx.epoch++;
+}
+// act on everything the fake servers received
 int serve(Ctx &cx, bool silent) {
   World &w = *cx.w; Src &s = *cx.s; int handled = 0;
-  struct Item { bool tcp; int ns; int conn; struct sockaddr_in from; std::vector<uint8_t> data; };
-  std::vector<Item> items;
-  for (int k = 0; k < w.nns; k++) { Datagram d; while (udp_recv(k, &d)) { Item it; it.tcp = false; it.ns = k; it.conn = -1; it.from = d.from; it.data = d.data; items.push_back(it); } }
-  w.tcp_poll();
-  for (size_t c = 0; c < w.conns.size(); c++) { std::vector<uint8_t> m; while (w.conns[c].fd >= 0 && World::tcp_pop(w.conns[c], &m)) { Item it; it.tcp = true; it.ns = w.conns[c].ns; it.conn = (int)c; memset(&it.from, 0, sizeof it.from); it.data = m; items.push_back(it); cx.n_tcp++; } }
+  collect(cx); std::vector<Item> items; items.swap(cx.pending);
   std::vector<Query> qs;
   for (auto &it : items) { Query q = decode_query_strict(it.data.data(), it.data.size());
     CHECK(q.ok, "C34/malformed-query", "query does not decode: %s", q.why);
@@ -141,14 +169,14 @@ int serve(Ctx &cx, bool silent) {
       if (q.name.size() > 2 && q.type != T_PTR) cx.n_search++;
       if (!cx.base_freed) CHECK(r.issued, "C34/query-for-failed-request", "query for r%d whose resolve call returned NULL", o); }
     qs.push_back(q); }
-  // transaction IDs: two different live requests whose queries arrived in the same batch (i.e. both were transmitted since the last
-  // look) must not carry the same ID.  (Comparing against IDs remembered from earlier batches would be unsound: an ID is free again
-  // as soon as its request is done, which the fake servers cannot see.)
-  if (!cx.base_freed) { std::map<int, int> seen;
+  // transaction IDs: two different live requests whose queries were read by the same collect() (i.e. both were transmitted with no
+  // timeout, late reply or served reply in between) must not carry the same ID.  (Comparing across epochs would be unsound: an ID is free
+  // again as soon as its request -- or one half of a getaddrinfo, or one search candidate -- is done, which the fake servers cannot see.)
+  if (!cx.base_freed) { std::map<long, int> seen;
     for (size_t n = 0; n < qs.size(); n++) { int o = owner_of(qs[n]); if (o < 0 || o >= cx.nreq) continue; R &r = cx.r[o]; if (!r.live() || r.cancel_called) continue;
-      int slot = qs[n].type == T_AAAA && r.kind == K_GAI ? 1 : 0; int who = o * 2 + slot; auto it2 = seen.find(qs[n].id);
+      int slot = qs[n].type == T_AAAA && r.kind == K_GAI ? 1 : 0; int who = o * 2 + slot; long ek = (long)items[n].epoch * 65536 + qs[n].id; auto it2 = seen.find(ek);
       if (it2 != seen.end() && it2->second != who) VERIF_FAIL("C34/duplicate-transaction-id", "requests r%d and r%d, both in flight, use transaction ID 0x%04x", it2->second / 2, o, qs[n].id);
-      seen[qs[n].id] = who; } }
+      seen[ek] = who; } }
   for (size_t n = 0; n < items.size(); n++) { Item &it = items[n]; Query &q = qs[n]; handled++;
     if (silent) continue;
     int act = s.below(10);   // 0 answer 1 NXDOMAIN 2 drop 3 SERVFAIL 4 REFUSED 5 NOTIMPL 6 TC 7 garbage 8 late answer 9 answer
@@ -202,26 +230,30 @@ extern "C" int LLVMFuzzerTestOneInput(const uint8_t *data, size_t size) {
   cx.k_stall = verif_known("C34/inflight-limit-stall");
   const bool k_gai_leak = cx.k_gai_leak = verif_known("C34/leak-getaddrinfo-base-free");
   int nns = 1 + s.below(3); w.open(nns);
-  int maxinf = 0; if (s.flag()) { maxinf = 1 + s.below(4); w.set_opt("max-inflight:", maxinf); cx.maxinf = maxinf; }   // known finding: a follow-up request (TCP retry / next search candidate) created while the in-flight limit is reached is parked and never pumped
+  int maxinf = 0; if (s.flag()) { maxinf = 1 + (int)s.below(NMAXINF); w.set_opt("max-inflight:", maxinf); cx.maxinf = maxinf; }   // known finding: a follow-up request (TCP retry / next search candidate) created while the in-flight limit is reached is parked and never pumped
   static const char *const TMO[] = {"5", "1", "0.3", "30"}; int tsel = s.below(4); if (tsel) w.set_opt("timeout:", TMO[tsel]);
   int attempts = 3; if (s.flag()) { attempts = 1 + s.below(3); w.set_opt("attempts:", attempts); }
   if (s.flag()) w.set_opt("max-timeouts:", 1 + (long)s.below(3));
   int ndom = s.below(3); if (ndom && cx.maxinf && cx.k_stall) { verif_known_skipped("C34/inflight-limit-stall"); ndom = 0; }
-  if (ndom) cx.followup_possible = true; static const char *const DOMS[] = {"d1.example", "d2"}; for (int i = 0; i < ndom; i++) evdns_base_search_add(w.dns, DOMS[i]);
+  cx.ndom = ndom; if (ndom) cx.followup_possible = true; static const char *const DOMS[] = {"d1.example", "d2"}; for (int i = 0; i < ndom; i++) evdns_base_search_add(w.dns, DOMS[i]);
   if (s.chance(1, 4)) w.set_opt("initial-probe-timeout:", "2");
   TR("config: nameservers=%d max-inflight=%d timeout=%s attempts=%d domains=%d", nns, maxinf, TMO[tsel], attempts, ndom);
 
   int end_mode = -1;
   for (int step = 0; step < 40 && w.dns; step++) {
-    int op = s.below(10);
+    int op = s.below(12);
     if (op == 0) break;
     switch (op) {
       case 1: case 2: issue(cx, false); break;
       case 3: { int j = s.below(MAXREQ); if (j < cx.nreq) cancel(cx, j, false); break; }
       case 4: case 5: case 6: w.turn(); if (w.dns) serve(cx, false); if (w.dns) w.turn(); break;
-      case 7: TR("advance"); { int64_t t0 = sim_now_us(); w.advance(); if (sim_now_us() > t0) { cx.n_timeouts++; cx.ns_may_have_failed = true; } } break;
-      case 8: w.turn(); deliver_delayed(cx); w.turn(); break;
+      case 7: TR("advance"); collect(cx); { int64_t t0 = sim_now_us(); w.advance(); if (sim_now_us() > t0) { cx.n_timeouts++; cx.ns_may_have_failed = true; } } break;
+      case 8: w.turn(); if (!cx.delayed.empty()) collect(cx); deliver_delayed(cx); w.turn(); break;
       case 9: if (s.chance(1, 3)) { free_base(cx, s.below(2), false); end_mode = 0; } break;
+      case 10: burst(cx); break;
+      case 11: { int m = 1 + (int)s.below(NMAXINF);   // the limit (and with it the bucket count of the in-flight table) changes while requests are outstanding
+        if (cx.k_stall && (cx.ndom || cx.followup_possible)) { verif_known_skipped("C34/inflight-limit-stall"); break; }   // known finding: a follow-up request created at the limit
+        TR("set max-inflight=%d", m); w.set_opt("max-inflight:", m); cx.maxinf = m; cx.n_relimit++; break; }
     }
     for (int i = 0; i < cx.nreq; i++) CHECK(cx.r[i].cb <= 1, "C34/callback-twice", "r%d callback count %d", i, cx.r[i].cb);
   }
@@ -230,7 +262,7 @@ extern "C" int LLVMFuzzerTestOneInput(const uint8_t *data, size_t size) {
     end_mode = s.below(3);    // 0: free(fail 0/1) now   1,2: silence, then free
     if (end_mode != 0) {
       TR("servers fall silent");
-      for (int it = 0; it < 600 && w.dns; it++) {
+      for (int it = 0; it < 600 + 100 * cx.nreq && w.dns; it++) {
         bool any_live = false; for (int i = 0; i < cx.nreq; i++) if (cx.r[i].live()) any_live = true;
         if (!any_live) break;
         w.turn(); if (w.dns) serve(cx, true);
@@ -241,7 +273,7 @@ extern "C" int LLVMFuzzerTestOneInput(const uint8_t *data, size_t size) {
           if (still && w.dns) VERIF_FAIL((cx.maxinf && cx.followup_possible) ? "C34/inflight-limit-stall" : "C34/request-never-completes", "request r%d (kind %d, cancelled=%d) has not had its callback and no timer or I/O is pending", who, cx.r[who].kind, cx.r[who].cancel_called);
           break; }
       }
-      if (w.dns) { for (int i = 0; i < cx.nreq; i++) CHECK(!cx.r[i].live(), "C34/request-never-completes", "request r%d (kind %d) still has no outcome after 600 timer rounds of silent nameservers", i, cx.r[i].kind); }
+      if (w.dns) { for (int i = 0; i < cx.nreq; i++) CHECK(!cx.r[i].live(), "C34/request-never-completes", "request r%d (kind %d) still has no outcome after 600 + 100 per request timer rounds of silent nameservers", i, cx.r[i].kind); }
     }
     if (w.dns) { int f = s.below(2); cx.closing = true; free_base(cx, f, false); }
   }
@@ -267,6 +299,8 @@ extern "C" int LLVMFuzzerTestOneInput(const uint8_t *data, size_t size) {
   int nontrivial = cx.nreq >= 1 && done >= 1 && (cx.n_timeouts || cx.n_tcp || cx.n_cancel || cx.n_incb || cx.n_late || cx.n_search || cx.n_retrans);
   if (cx.n_timeouts) verif_class("time_advanced"); if (cx.n_tcp) verif_class("tcp_query"); if (cx.n_cancel) verif_class("cancel"); if (cx.n_incb) verif_class("in_callback_action");
   if (cx.n_late) verif_class("late_reply"); if (cx.n_search) verif_class("search_step"); if (cx.n_retrans) verif_class("retransmission"); if (cx.freed_in_cb) verif_class("free_in_callback");
+  if (cx.n_burst) verif_class("burst"); if (cx.n_relimit) verif_class("max_inflight_changed_at_run_time"); if (cx.maxinf_at_free >= 6) verif_class("free_with_multi_bucket_inflight_table");
+  if (cx.maxinf_at_free && cx.live_at_free > cx.maxinf_at_free) { verif_class("free_with_more_live_than_max_inflight"); if (cx.maxinf_at_free >= 6) verif_class("free_with_waiting_queue_and_multi_bucket_table"); }
   if (cx.freed_fail == 1) verif_class("free_fail1"); if (cx.freed_fail == 0) verif_class("free_fail0"); if (end_mode > 0) verif_class("drained_by_silence");
   for (int i = 0; i < cx.nreq; i++) if (cx.r[i].kind == K_GAI && cx.r[i].issued) { verif_class("getaddrinfo"); break; }
   verif_case_end(nontrivial, s.h);
